@@ -124,4 +124,16 @@ func init() {
 		Outside: []string{"more sections than the bound, images of 16 MiB and more, COFF symbol tables, relocations, string-table section names, other NumberOfRvaAndSizes", "the per-position coverage statement (flip => digest changes) is implied only through the oracle equality and collision resistance of SHA-256; it is not separately decided yet"},
 		Assumptions: append([]string{"SHA-256 is modelled as an uninterpreted function with functional consistency; real SHA-256 is used on concrete inputs and in native replays"}, commonAssumptions...),
 	}
+	c03 := func(name string, nsec, plus, appends, timeout int) HarnessSpec {
+		return HarnessSpec{Name: name, Params: map[string]int{"vsymC01Nsec": nsec, "vsymC01Plus": plus, "vsymC01Lfanew": 0x80, "vsymC03Appends": appends},
+			MaxDecisions: 1000, MaxPaths: 5000, TimeoutSec: timeout, NeedReach: []string{"end"}}
+	}
+	registry["C03"] = &Property{
+		Quick:    []HarnessSpec{c03("VC03_AppendLayout", 1, 1, 1, 400), c03("VC03_AppendTwice", 1, 1, 2, 400)},
+		Thorough: []HarnessSpec{c03("VC03_AppendLayout", 0, 1, 1, 600), c03("VC03_AppendLayout", 1, 1, 1, 600), c03("VC03_AppendLayout", 1, 0, 1, 600), c03("VC03_AppendLayout", 2, 1, 1, 3000), c03("VC03_AppendTwice", 1, 1, 3, 1200)},
+		Bounds: []string{"symbolic well-formed image as in C01 (1 section quick; 0..2 thorough; PE32/PE32+), with or without an existing certificate table of arbitrary content; signature bytes and length symbolic (0..65536, every length mod 8)",
+			"decided: output bytes = every original byte except the directory entry, zero padding to 8, old table, new WIN_CERTIFICATE (dwLength=8+len, revision 0x0200, type 0x0002, data, padding to 8); directory entry = (padded length or old address, table size) and spans to end of file; 2 (quick) / 3 in-memory appends"},
+		Outside: []string{"re-parse digest equality and verification after signing (need the PKCS#7 crypto model; the specification-level lemma 'specified signed file is well-formed and keeps the specification digest' was attempted and is undecided by the solvers within 20 s per query: harness VC03_SignedIsWellFormed is kept but not registered)", "acceptance by real firmware"},
+		Assumptions: commonAssumptions,
+	}
 }
